@@ -165,6 +165,7 @@ struct Raw {
     bound: bool,
     known: Vec<(u16, u16, bool)>,
     op: RawOp,
+    milestone: Option<usize>,
 }
 
 fn change_case(s: &str, mode: u8) -> String {
@@ -383,7 +384,7 @@ fn resolve(raw: Raw) -> Case {
         }
         RawOp::Seg => Op::Segmentation,
     };
-    Case { texts, sub, bound: raw.bound, known, op }
+    Case { texts, sub, bound: raw.bound, known, op, milestone: raw.milestone }
 }
 
 pub fn case_strategy(tier: Tier) -> BoxedStrategy<Case> {
@@ -410,7 +411,9 @@ pub fn case_strategy(tier: Tier) -> BoxedStrategy<Case> {
         any::<bool>(),
         known,
         raw_op(),
+        // milestone interval of the position index: default configuration mostly, small intervals (milestones inside short texts) otherwise
+        prop_oneof![5 => Just(None), 1 => Just(Some(1usize)), 1 => Just(Some(2usize)), 1 => Just(Some(3usize)), 1 => Just(Some(7usize)), 1 => Just(Some(0usize))],
     )
-        .prop_map(|(symbols, texts, sub, bound, known, op)| resolve(Raw { symbols, texts, sub, bound, known, op }))
+        .prop_map(|(symbols, texts, sub, bound, known, op, milestone)| resolve(Raw { symbols, texts, sub, bound, known, op, milestone }))
         .boxed()
 }
